@@ -191,69 +191,75 @@ stdin and the write end of its own pipe as stdout, nothing else -/
 def childSpec (n i : Nat) : List (Nat × End) :=
   (if i = 0 then [] else [(i - 1, End.rd)]) ++ (if i + 1 = n then [] else [(i, End.wr)])
 
-def driverSpec (k : Nat) : List Fd := (List.range k).map fun j => ⟨j, .rd, true⟩
+/-- what the driver holds after `k` stages of `n`: only the read end it is about to hand to the
+next stage -/
+def driverSpec (n k : Nat) : List Fd := if k = 0 ∨ n ≤ k then [] else [⟨k - 1, .rd, true⟩]
 
-theorem childFds_cloexec (k : Nat) (extra : List Fd) (hx : ∀ f ∈ extra, f.cloexec = true) (cur : Option Nat)
-    (out : Option Nat) :
-    childFds (driverSpec k ++ extra) cur out =
+theorem childFds_cloexec (d : List Fd) (hx : ∀ f ∈ d, f.cloexec = true) (cur : Option Nat) (out : Option Nat) :
+    childFds d cur out =
       (match cur with | some p => [(p, End.rd)] | none => []) ++ (match out with | some p => [(p, End.wr)] | none => []) := by
   unfold childFds
-  have : (driverSpec k ++ extra).filter (fun f => !f.cloexec) = [] := by
+  have : d.filter (fun f => !f.cloexec) = [] := by
     rw [List.filter_eq_nil_iff]
     intro f hf
-    rcases List.mem_append.1 hf with h | h
-    · simp only [driverSpec, List.mem_map] at h
-      obtain ⟨j, _, rfl⟩ := h
-      simp
-    · simp [hx f h]
+    simp [hx f hf]
   rw [this]
   cases cur <;> cases out <;> rfl
 
 /-- invariant of the spawn loop after `k` stages of `n` -/
 structure FdInv (n k : Nat) (s : FdState) : Prop where
-  driver : s.driver = driverSpec (min k (n - 1))
-  cur : s.cur = (if min k (n - 1) = 0 then none else some (min k (n - 1) - 1))
+  driver : s.driver = driverSpec n k
+  cur : k < n → s.cur = (if k = 0 then none else some (k - 1))
   children : s.children = (List.range k).map (childSpec n)
 
-theorem driverSpec_succ (k : Nat) : driverSpec (k + 1) = driverSpec k ++ [⟨k, .rd, true⟩] := by
-  simp [driverSpec, List.range_succ]
+theorem driverSpec_cloexec (n k : Nat) : ∀ f ∈ driverSpec n k, f.cloexec = true := by
+  intro f hf
+  unfold driverSpec at hf
+  split at hf
+  · simp at hf
+  · simp at hf; subst hf; rfl
 
 theorem spawnphaseFd_inv (n k : Nat) (s : FdState) (hk : k < n) (h : FdInv n k s) :
     FdInv n (k + 1) (spawnphaseFd true k (k + 1 == n) s) := by
-  have hm : min k (n - 1) = k := by omega
-  have hd := h.driver; have hc := h.cur; have hch := h.children
-  rw [hm] at hd hc
+  have hd := h.driver; have hc := h.cur hk; have hch := h.children
   unfold spawnphaseFd
   by_cases hl : k + 1 = n
   · have hl' : (k + 1 == n) = true := by simpa using hl
-    have hm' : min (k + 1) (n - 1) = k := by omega
     simp only [hl', if_true]
-    refine ⟨by rw [hm', hd], by rw [hm', hc], ?_⟩
-    rw [hch, List.range_succ, List.map_append, List.map_singleton]
-    congr 1
-    have := childFds_cloexec k [] (by simp) s.cur none
-    simp only [List.append_nil] at this
-    rw [hd, this, hc]
-    unfold childSpec
-    by_cases h0 : k = 0 <;> simp [h0, hl] <;> omega
-  · have hl' : (k + 1 == n) = false := by simpa using hl
-    have hm' : min (k + 1) (n - 1) = k + 1 := by omega
-    simp only [hl', Bool.false_eq_true, if_false]
-    refine ⟨?_, by simp [hm'], ?_⟩
-    · rw [hm', driverSpec_succ, hd]
-      rw [List.filter_append]
-      have h1 : (driverSpec k).filter (fun f => !(f.pipe == k && f.side == End.wr)) = driverSpec k := by
-        rw [List.filter_eq_self]
-        intro f hf
-        simp only [driverSpec, List.mem_map] at hf
-        obtain ⟨j, _, rfl⟩ := hf
-        simp
-      rw [h1]
-      simp
+    refine ⟨?_, fun h' => by omega, ?_⟩
+    · rw [hd, hc]
+      unfold driverSpec closeCur
+      have hn : n ≤ k + 1 := by omega
+      by_cases h0 : k = 0
+      · subst h0; simp [hn]
+      · have : ¬(k = 0 ∨ n ≤ k) := by omega
+        simp [h0, this, hn]
     · rw [hch, List.range_succ, List.map_append, List.map_singleton]
       congr 1
-      have := childFds_cloexec k [⟨k, .rd, true⟩, ⟨k, .wr, true⟩] (by simp) s.cur (some k)
-      rw [hd, this, hc]
+      rw [hd, childFds_cloexec _ (driverSpec_cloexec n k), hc]
+      unfold childSpec
+      by_cases h0 : k = 0 <;> simp [h0, hl] <;> omega
+  · have hl' : (k + 1 == n) = false := by simpa using hl
+    simp only [hl', Bool.false_eq_true, if_false]
+    refine ⟨?_, fun _ => by simp, ?_⟩
+    · rw [hd, hc]
+      unfold driverSpec closeCur
+      have h1 : ¬(k + 1 = 0 ∨ n ≤ k + 1) := by omega
+      have h2 : ¬(n ≤ k + 1) := by omega
+      by_cases h0 : k = 0
+      · subst h0; simp [h2]
+      · have : ¬(k = 0 ∨ n ≤ k) := by omega
+        have h3 : ¬(k - 1 = k) := by omega
+        have h4 : ¬(k = k - 1) := by omega
+        have h5 : ¬(n ≤ k) := by omega
+        simp [h0, this, h2, h3, h4, h5, List.filter_cons]
+    · rw [hch, List.range_succ, List.map_append, List.map_singleton]
+      congr 1
+      rw [hd, childFds_cloexec _ (by
+        intro f hf
+        rcases List.mem_append.1 hf with h' | h'
+        · exact driverSpec_cloexec n k f h'
+        · simp at h'; rcases h' with rfl | rfl <;> rfl), hc]
       unfold childSpec
       by_cases h0 : k = 0 <;> simp [h0, hl] <;> omega
 
